@@ -108,9 +108,13 @@ class C14(Check):
                 break
             snap = r["snap"]
             # harness sanity: the losses are the script
-            exp_losses = np.abs(np.array(cfg["script"][:snap["n"]] if snap["n"] <= len(cfg["script"]) else cfg["script"]))
-            if snap["n"] <= len(cfg["script"]) and not np.array_equal(snap["losses"], exp_losses):
+            m = len(snap["losses"])
+            exp_losses = np.abs(np.array(cfg["script"][:m]))
+            if m <= len(cfg["script"]) and not np.array_equal(snap["losses"], exp_losses):
                 raise RuntimeError(f"harness: losses are not the script: {snap['losses'].tolist()} vs {exp_losses.tolist()}")
+            if m != snap["n"]:
+                res.add("counter-disagrees-with-history", "n_sampled_params", f"call {k}: {m} losses recorded but the sample counter is {snap['n']}")
+                break
             if snap["batch_index"] != bidx or snap["n"] != rows:
                 kind = "stopped-too-early" if snap["batch_index"] < bidx else "did-not-stop"
                 res.add(kind, "verbose" if sim.env["verbose"] else "quiet",
